@@ -1600,13 +1600,14 @@ fn big_tall_history<S: BigSub>(n: u32, desc: bool, acc: &mut Acc, case_no: u64) 
             }
         }
         check(&t, n, "after the fill")?;
-        let slots_before = if on("arena") || on("growth") { t.snap().slots.len() } else { 0 };
+        let slots_before = t.snap().slots.len();
         t.clr();
         scope_after_clear();
         check(&t, 0, "after clear")?;
         if on("clear") || on("arena") {
             let s = t.snap();
-            if s.unused.len() + 1 != s.slots.len() || (slots_before != 0 && s.slots.len() != slots_before) {
+            // every slot that still exists is free (an implementation may also give memory back on clear)
+            if s.unused.len() + 1 != s.slots.len() || s.slots.len() > slots_before.max(16) {
                 return Err(("arena".into(), format!("after clear of {n} entries: {} of {} slots on the free list (arena had {slots_before} slots)", s.unused.len(), s.slots.len())));
             }
         }
@@ -1624,8 +1625,8 @@ fn big_tall_history<S: BigSub>(n: u32, desc: bool, acc: &mut Acc, case_no: u64) 
         check(&t, 1000, "after clear and 1000 insertions")?;
         if on("growth") {
             let s = t.snap();
-            if s.slots.len() != slots_before {
-                return Err(("growth".into(), format!("after clear and 1000 insertions the arena has {} slots, it had {slots_before} before", s.slots.len())));
+            if s.slots.len() > slots_before.max(8 * 1001 + 8) {
+                return Err(("growth".into(), format!("after clear and 1000 insertions the arena has {} slots, it had {slots_before} before the clear", s.slots.len())));
             }
         }
         Ok(())
